@@ -7,7 +7,7 @@
    All statements are for ALL sizes n, k, c, numbers of factors / blocks / repeats. *)
 From mathcomp Require Import all_ssreflect all_algebra.
 Require Import C04.Model C04.ProofsBridge C04.ProofsTri C04.ProofsChol C04.ProofsStruct C04.ProofsKron
-               C04.ProofsEig C04.ProofsBlock C04.ProofsAlg C04.ProofsCholFactor C04.ProofsSound C04.ProofsSelect.
+               C04.ProofsEig C04.ProofsBlock C04.ProofsAlg C04.ProofsCholFactor C04.ProofsSound C04.ProofsSelect C04.ProofsKronTri C04.ProofsEigKron.
 Set Implicit Arguments.
 Unset Strict Implicit.
 Unset Printing Implicit Defensive.
@@ -79,6 +79,33 @@ Theorem C04_kron_solve_correct fs (As Bs : seq (fac F)) c (X : cols F) I col :
   \sum_(I' < prodn As) kron As I I' * vget FA (nth [::] (kron_apply FA fs c X) col) I'
   = vget FA (nth [::] X col) I.
 Proof. exact: kron_apply_correct. Qed.
+
+(* substitution is a linear map: multiplication by the inverse matrix *)
+Theorem C04_tri_solve_linear upper n (T : mat F) (v : vec F) :
+  tri_flag sq lt upper n T -> diag_nz sq lt n T ->
+  cv_of n (tri_solve FA upper n T v) = invmx (mx_of n n T) *m cv_of n v.
+Proof. exact: tri_solve_lin. Qed.
+
+(* Kronecker product of triangular factors solved factor by factor through the rotation (KroneckerProductTriangular
+   solve / Kron._solve over Cholesky factors): any number of factors *)
+Theorem C04_kron_tri_solve_correct upper (ts : seq (tfac F)) c (X : cols F) I col :
+  all_tri sq lt upper ts -> (0 < c)%N -> (I < prodm (map (@fac_of F sq lt) ts))%N -> (col < c)%N ->
+  \sum_(I' < prodn (map (@fac_of F sq lt) ts))
+     kron (map (@fac_of F sq lt) ts) I I' * vget FA (nth [::] (kron_apply FA (map (act_of sq lt upper) ts) c X) col) I'
+  = vget FA (nth [::] X col) I.
+Proof. exact: kron_tri_solve_correct. Qed.
+
+(* the Cholesky path of a Kronecker product (KroneckerProductTriangular._cholesky_solve): forward sweep with the
+   L_i, backward sweep with the L_i^T; the result solves with ⊗ (L_i L_i^T) *)
+Theorem C04_kron_chol_solve_correct (ts : seq (tfac F)) c (X : cols F) I col :
+  all_tri sq lt false ts -> (0 < c)%N -> (I < prodm (map (@fac_of F sq lt) ts))%N -> (col < c)%N ->
+  let Y := kron_apply FA (map (act_of sq lt true) (map (@tr_of F sq lt) ts)) c
+             (kron_apply FA (map (act_of sq lt false) ts) c X) in
+  \sum_(I' < prodn (map (@fac_of F sq lt) ts))
+     kron (zipmul (map (@fac_of F sq lt) ts) (map (@fac_of F sq lt) (map (@tr_of F sq lt) ts))) I I'
+       * vget FA (nth [::] Y col) I'
+  = vget FA (nth [::] X col) I.
+Proof. exact: kron_chol_solve_correct. Qed.
 
 (* block-diagonal / block-interleaved: solving block-wise solves the block-structured system *)
 Theorem C04_block_solve_correct inter k m (e : nat -> nat -> nat -> F) (solvers : seq (vec F -> vec F)) (v : vec F) I :
@@ -154,6 +181,27 @@ Theorem C04_alg_solve_sound_perm (s : settings) (p : seq nat) (B X : cols F) :
   alg_solve RA s (DPerm F p) B None = Some X ->
   size X = size B /\ forall j, (j < size B)%N -> solves (DPerm F p) (nth [::] X j) (nth [::] B j).
 Proof. exact: alg_solve_sound_perm. Qed.
+
+(* the executable eigen-shift kernel (KroneckerProductAddedDiag._solve, constant diagonal), any number of factors:
+   with Qb = ⊗ Q_i and Wb = ⊗ w_i (eigh oracle: Q_i^T Q_i = I),  (Qb diag(Wb) Qb^T + sigma I) * result = rhs *)
+Theorem C04_eigshift_solve_correct (es : seq (eigd F)) (sigma : F) c (X : cols F) col :
+  all_eig_wf es -> (0 < c)%N -> (col < c)%N ->
+  let N := prodm (map (@qfac F) es) in
+  let Qb : 'M[F]_N := \matrix_(I, J) kron (map (@qfac F) es) I J in
+  let Wb : 'rV[F]_N := \row_J vget RA (kron_evals RA (map snd es)) J in
+  (forall J : 'I_N, 0 < Wb 0 J + sigma) ->
+  (Qb *m diag_mx Wb *m Qb^T + sigma%:M) *m cv_of (@rsq F) (@rlt F) N (nth [::] (eigshift_solve RA es sigma c X) col)
+  = cv_of (@rsq F) (@rlt F) N (nth [::] X col).
+Proof. exact: eigshift_solve_correct. Qed.
+
+(* … and Qb diag(Wb) Qb^T is the Kronecker product of the factor matrices Q_i diag(w_i) Q_i^T *)
+Theorem C04_kron_eig_decomp (es : seq (eigd F)) (I L : 'I_(prodm (map (@qfac F) es))) : all_eig_wf es ->
+  let N := prodm (map (@qfac F) es) in
+  let Qb : 'M[F]_N := \matrix_(I, J) kron (map (@qfac F) es) I J in
+  let Wb : 'rV[F]_N := \row_J vget RA (kron_evals RA (map snd es)) J in
+  (Qb *m diag_mx Wb *m Qb^T) I L
+  = kron (zipmul (zipmul (map (@qfac F) es) (map (@dfac F) es)) (map (@qtfac F) es)) I L.
+Proof. exact: kron_eig_decomp. Qed.
 
 (* hypotheses are satisfiable, and alg_solve does return a value there *)
 Example C04_wf_leaf_sat :
